@@ -73,6 +73,7 @@ type codecExec struct {
 	bounds  []string            // "R1 <= const:maxRelPathLength"
 	boundsResolved []string     // the same after resolve(): "reject if (len(F.RelPath) > const:maxRelPathLength)"
 	problems []string
+	definite []string // idioms that are decided: the frame is broken whatever the rest looks like
 	earlyZeroReturn []string // reader: symbols X with `if X == 0 { return ok }`
 	retSym  string
 	depth   int
@@ -385,6 +386,7 @@ func (x *codecExec) helperRead(call *ast.CallExpr, assignLHS []ast.Expr) ([]code
 	x.nread = sub.nread
 	x.bounds = append(x.bounds, sub.bounds...)
 	x.problems = append(x.problems, sub.problems...)
+	x.definite = append(x.definite, sub.definite...)
 	if len(assignLHS) > 0 && sub.retSym != "" {
 		if o := ObjOf(x.info, assignLHS[0]); o != nil {
 			x.env[o] = sub.retSym
@@ -635,6 +637,44 @@ func (x *codecExec) stmt(st ast.Stmt) []codecTok {
 					}
 				}
 			}
+			// reader: a length read off the stream is overwritten before the bytes it announces are read (`if n > K { n = K }`),
+			// and the value that was read is kept nowhere: the rest of the announced bytes cannot be skipped any more
+			if !x.writer && len(s.Body.List) == 1 && s.Else == nil {
+				if a, ok := s.Body.List[0].(*ast.AssignStmt); ok && a.Tok == token.ASSIGN && len(a.Lhs) == 1 && len(a.Rhs) == 1 {
+					if o := ObjOf(x.info, a.Lhs[0]); o != nil && strings.HasPrefix(x.env[o], "R") {
+						kept := false
+						ast.Inspect(x.f.Body, func(m ast.Node) bool {
+							if as, ok := m.(*ast.AssignStmt); ok && as.Pos() < s.Pos() {
+								for i, r := range as.Rhs {
+									mentions := false
+									ast.Inspect(r, func(y ast.Node) bool {
+										if id, ok := y.(*ast.Ident); ok && x.info.Uses[id] == o {
+											mentions = true
+										}
+										return true
+									})
+									if mentions && i < len(as.Lhs) && ObjOf(x.info, as.Lhs[i]) != o {
+										kept = true
+									}
+								}
+							}
+							return true
+						})
+						usedLater := false
+						ast.Inspect(x.f.Body, func(m ast.Node) bool {
+							if id, ok := m.(*ast.Ident); ok && x.info.Uses[id] == o && id.Pos() > s.End() {
+								usedLater = true
+							}
+							return true
+						})
+						if !kept && usedLater {
+							x.definite = append(x.definite, x.p.Pos(s.Pos())+": the length read off the stream ("+types.ExprString(a.Lhs[0])+") is replaced by "+types.ExprString(a.Rhs[0])+" before the bytes it announces are read, and the value that was read is kept nowhere: "+
+								"the rest of the announced bytes stays on the stream and is decoded as the next record")
+							return out
+						}
+					}
+				}
+			}
 			x.problem(s.Pos(), "unrecognised conditional computation on %s", condSym)
 			return out
 		}
@@ -652,6 +692,36 @@ func (x *codecExec) stmt(st ast.Stmt) []codecTok {
 		if s.Value != nil {
 			if o := ObjOf(x.info, s.Value); o != nil {
 				x.env[o] = "elem(" + over + ")"
+			}
+		}
+		if x.writer {
+			// an element can be skipped while the count in front of the section is the length of the whole list
+			var skip *ast.BranchStmt
+			ast.Inspect(s.Body, func(m ast.Node) bool {
+				switch y := m.(type) {
+				case *ast.FuncLit, *ast.ForStmt, *ast.RangeStmt:
+					return false
+				case *ast.BranchStmt:
+					if y.Tok == token.CONTINUE && y.Label == nil {
+						skip = y
+					}
+				}
+				return true
+			})
+			if skip != nil {
+				lenWritten := false
+				ast.Inspect(x.f.Body, func(m ast.Node) bool {
+					if call, ok := m.(*ast.CallExpr); ok && call.Pos() < s.Pos() && len(call.Args) == 1 {
+						if id, ok := ast.Unparen(call.Fun).(*ast.Ident); ok && id.Name == "len" && types.ExprString(call.Args[0]) == types.ExprString(s.X) {
+							lenWritten = true
+						}
+					}
+					return true
+				})
+				if lenWritten {
+					x.definite = append(x.definite, x.p.Pos(skip.Pos())+": an element of "+types.ExprString(s.X)+" can be skipped (continue) while the count written in front of the section is len("+types.ExprString(s.X)+"): "+
+						"the reader takes the bytes that follow the shortened section for the missing elements")
+				}
 			}
 		}
 		body := x.block(s.Body.List)
@@ -1056,6 +1126,14 @@ func runCodec(c *Ctx) {
 		}
 		key := "record/" + cn
 		problems := append(append([]string{}, w.x.problems...), rprob...)
+		definite := append([]string{}, w.x.definite...)
+		if rxDbg != nil {
+			definite = append(definite, rxDbg.definite...)
+		}
+		if len(definite) > 0 {
+			c.Bad(key, w.f.Pos(), "writer and reader of the record cannot agree: "+strings.Join(definite, "; "))
+			continue
+		}
 		if len(problems) > 0 {
 			c.add(key, w.f.Pos(), Undecided, false, "codec body uses an idiom the rule does not recognise: "+strings.Join(problems, "; "), nil)
 			continue
